@@ -5,6 +5,7 @@ package c16
 import (
 	"bytes"
 	"fmt"
+	"github.com/innovationb1ue/RedisGO/raftexample"
 	"io"
 	"os"
 	"path/filepath"
@@ -63,7 +64,7 @@ type stats struct {
 	tornStraddle, corruptErr, corruptPrefix, corruptFull, corruptPanic  int64
 	snapCorruptions, snapFallbacks, dupImages, oldVariant, maxDirty     int64
 	overwrites, reopens, snapsTaken, unsyncedSaves, contWithCut         int64
-	recrashes                                                           int64
+	recrashes, appReplays                                               int64
 }
 
 type savedSnap struct {
@@ -91,6 +92,7 @@ type run struct {
 	st              stats
 	budget          int
 	seenImages      map[uint64]bool
+	curImage        *image
 	fail            string
 	inconclusive    string
 	excluded        []string
@@ -164,6 +166,7 @@ func exec(c Case) kit.Outcome {
 	kit.C.Label("snap-fallbacks", r.st.snapFallbacks)
 	kit.C.Label("continuations-with-cut", r.st.contWithCut)
 	kit.C.Label("restarts-from-crash-image", r.st.recrashes)
+	kit.C.Label("images-also-recovered-through-the-node's-own-start-up-code", r.st.appReplays)
 	kit.C.MaxExtra("max_dirty_sectors", r.st.maxDirty)
 	o := kit.Outcome{Fail: r.fail, Excluded: r.excluded}
 	// crash sequences: an image with a lost sector followed by a surviving one, or a torn record that
@@ -602,7 +605,9 @@ func (r *run) checkImage(p *crashPoint, ds []dirtySector, keep []bool, old bool)
 		r.inconclusive = "writing image: " + err.Error()
 		return
 	}
+	r.curImage = &im
 	msg := r.checkRecovery(p, wd, sd)
+	r.curImage = nil
 	if msg != "" {
 		variant := "new"
 		if old {
@@ -759,8 +764,47 @@ func (r *run) checkRecovery(p *crashPoint, walDir, snapDir string) string {
 		w.Close()
 		return m
 	}
+	// 4b. the node's own start-up recovery (raftexample's replayWAL, through hook VerifReplay) on a fresh copy
+	// of the same image must start the raft instance from exactly that: same snapshot, hard state, entries.
+	// Every image that needed a repair, one in four of the others.
+	if r.curImage != nil && (repaired || r.st.images%4 == 0) {
+		if m := r.replayViaApp(start, g); m != "" {
+			w.Close()
+			return m
+		}
+	}
 	// 5. the recovered WAL accepts further saves and a clean reopen returns old + new
 	return r.continueAfter(w, walDir, start, g)
+}
+
+func (r *run) replayViaApp(start walpb.Snapshot, g got) string {
+	dir := filepath.Join(r.root, "img-app")
+	_ = os.RemoveAll(dir)
+	defer os.RemoveAll(dir)
+	wd, sd := filepath.Join(dir, "wal"), filepath.Join(dir, "snap")
+	if err := r.curImage.write(wd, sd); err != nil {
+		return ""
+	}
+	r.st.appReplays++
+	hs, ents, snapIdx, err := raftexample.VerifReplay(wd, sd)
+	if err != nil {
+		return fmt.Sprintf("the node's start-up recovery (replayWAL) fails on an image the WAL recovers from: %v", err)
+	}
+	if snapIdx != start.Index {
+		return fmt.Sprintf("the node's start-up recovery starts from snapshot %d, the newest snapshot the recovered log refers to is %d", snapIdx, start.Index)
+	}
+	if hs != g.hs {
+		return fmt.Sprintf("the node's start-up recovery hands raft the hard state %v, the log holds %v", hs, g.hs)
+	}
+	if len(ents) != len(g.ents) {
+		return fmt.Sprintf("the node's start-up recovery hands raft %d entries behind snapshot %d, the recovered log holds %d (%s)", len(ents), start.Index, len(g.ents), describeGot(g))
+	}
+	for i := range ents {
+		if ents[i].Index != g.ents[i].Index || ents[i].Term != g.ents[i].Term || string(ents[i].Data) != string(g.ents[i].Data) {
+			return fmt.Sprintf("the node's start-up recovery hands raft entry (index %d, term %d) at position %d, the recovered log holds (index %d, term %d)", ents[i].Index, ents[i].Term, i, g.ents[i].Index, g.ents[i].Term)
+		}
+	}
+	return ""
 }
 
 // judge: the recovered content must be the fold of r_1..r_k for some k >= required.
